@@ -317,6 +317,7 @@ class Facts:
         self.fn_list = []
         for fj in j.get("functions", []):
             fn = Fn(fj)
+            fn.facts = self
             self.fn_list.append(fn)
             # static functions in different files could share a name; keep the first, list all
             self.fns.setdefault(fn.name, fn)
